@@ -749,3 +749,17 @@ func (t *Topo) Summary() map[string]any {
 		"nodes": nodes, "features": t.Features(),
 	}
 }
+
+// TopoPool returns n hardware models derived deterministically from the
+// effective seed of this process. Checks whose cost is dominated by writing
+// fixture trees draw an index into such a pool instead of a fresh machine per
+// case (the replay file still carries the full model).
+func TopoPool(n int, o TopoOpts) []*Topo {
+	seed := EnvInt("VERIF_SEED_EFFECTIVE", 1)
+	g := rapid.Custom(func(t *rapid.T) *Topo { return GenTopo(t, o) })
+	out := make([]*Topo, 0, n)
+	for i := 0; i < n; i++ {
+		out = append(out, g.Example(seed*100003+i))
+	}
+	return out
+}
